@@ -28,6 +28,12 @@ for c in commits:
     subj = sh("git", "-C", "/repo", "log", "-1", "--format=%s", c).stdout.strip()
     assert subj.startswith("fix:"), f"commit {c[:9]} is not a fix: commit: {subj}"
     main = sh("git", "-C", "/repo", "rev-parse", "main").stdout.strip()
+    # already in main (cherry-picked there from another builder's worktree)?  same subject => same fix
+    have = {l.split(" ", 1)[1]: l.split(" ", 1)[0] for l in sh("git", "-C", "/repo", "log", "main", "-400", "--format=%H %s").stdout.splitlines() if " " in l}
+    if subj in have:
+        mapping[c[:9]] = have[subj][:9]
+        print(f"repo: {c[:9]} already in main as {have[subj][:9]}  {subj}")
+        continue
     parent = sh("git", "-C", "/repo", "rev-parse", c + "^").stdout.strip()
     if parent == main:
         sh("git", "-C", "/repo", "merge", "--ff-only", c)
